@@ -5,12 +5,21 @@ ROOT = os.path.dirname(os.path.dirname(os.path.abspath(__file__)))
 props = [json.loads(l) for l in open(os.path.join(ROOT, "properties.jsonl"))]
 MC = "model_checking"
 CLAIMS = {
+ "C01": dict(engine="SYMX", text="Bounded model checking of the real process() pipeline on symbolic three-component samples with an arbitrary symbolic taper: for every key of the combine/processing registers (aliases included), single azimuth, RotDpp, azimuthal and diffuse field, and all seven smoothing operators, each output cell is proved (unsat of the negation, per feasible path) equal to Smooth(combine_spec(|F ns|,|F ew|))/Smooth(|F vt|) built from an independent reference table; stage lemmas (homogeneity, closed form, DFT linearity) in exact-sqrt arithmetic; scale laws as corollaries.",
+   note="Bounds: 3 samples per component, n_fft 4 (exact DFT) and 16 (opaque spectrum symbols) [8 in thorough], 1-2 records, 2-3 centre frequencies on non-empty windows, 2 azimuths. |.| and sqrt uninterpreted at composition level; smoothing = the real operators on a concrete grid (kernel identity is C02); nextpow2 floor lowered by wrapping; FFT rounding and larger n outside the claim.",
+   tech="symbolic execution of the real pipeline + z3 (UF+LRA/NRA, nlsat on UF-abstraction) cell-equality queries against a reference table; lemma-then-compose", ref="2/C01"),
+ "C02": dict(engine="SYMX", text="Bounded model checking of the interpreted source of the seven smoothing operators on a symbolic grid (symbolic spacing, centre frequency, bandwidth, spectrum): on every solver-enumerated path (which bins fall in the window, which guards fire) the output is proved equal to the weight-normalised average under the published kernel (0 for empty windows); constant reproduction, non-negative weights, row independence, convexity and linearity lemmas, Savitzky-Golay least-squares coefficients and cubic reproduction as separate queries.",
+   note="Bounds: 5 bins (quick) / 5-8 (thorough), 2-3 rows, 1-2 symbolic centre frequencies; SG on a concrete grid with symbolic spectrum, m in {5,7} / {5..11}. sin/log10/10**x uninterpreted (with sound monotone-inverse instances), floats as reals (1e-6 guards and edges exact). Compiled==interpreted is compared on the solver-chosen path witnesses only (reported as such), not decided.",
+   tech="symbolic execution of the interpreted kernels + z3 per-path equality with the published weight formula; nlsat lemmas; compiled kernels run on the path witnesses", ref="2/C02"),
  "C05": dict(engine="SYMX", text="Bounded model checking of every statistic accessor of HvsrTraditional from an arbitrary valid state (symbolic curves and peaks, solver-forked accept/reject/no-peak status per window, three distribution spellings): per state the returned term is proved equal (unsat of the negation) to the textbook estimator over the accepted rows; frame condition on the symbols of rejected windows; reciprocal/symmetry consequences; a transition instance covers constructor + range update.",
    note="Bounds: 2-3 (quick) / 2-4 (thorough) windows, 2/3 frequencies. Floats read as reals; sqrt/exp/log uninterpreted with log(exp u)=u (argument equality is decided); np.cov runs numpy's own code via aweights=ones. States are constructed directly (one step from any valid state), transitions into those states are covered by C06/C08/C13.",
    tech="symbolic execution of the real source from an arbitrary valid state + z3 (NRA/UF) equality queries against textbook estimators", ref="2/C05"),
  "C06": dict(engine="SYMX", text="Bounded model checking of the real FDWRA code: the inner routine is executed from an arbitrary valid state (symbolic peak frequencies, curves and n; every max_iterations in the bound; 4 distribution pairs) next to a transcription of the published loop on a shadow state, and on every solver-enumerated path the masks, the returned count, monotonicity and the iteration bound must agree; the outer function is checked to be 'peak search + inner routine per object, maximum of the counts'; small end-to-end runs on constructor-built traditional and azimuthal objects; permutation and scale invariance.",
    note="Bounds: 3-4 (quick) / 3-5 (thorough) windows, 3-4 frequencies, max_iterations 1-3/1-4, 2 azimuths. The estimators the loop calls are C05's subject (the reference calls the same accessors on a shadow object). sqrt/exp/log uninterpreted with monotone log-space comparisons; witnesses are concretised across the uninterpreted-function gap and replayed. Rounding in the 0.01 tests outside the claim.",
    tech="symbolic execution of the real source vs. reference transcription of Cox et al. (2020), path-wise agreement decided by z3 branch feasibility; witnesses replayed", ref="2/C06"),
+ "C11": dict(engine="SYMX", text="Bounded model checking of every statistic accessor of HvsrAzimuthal (numpy's own np.cov(aweights=) included) from an arbitrary valid state with solver-forked accept/reject status per window and azimuth: weights, means, 1-sum(w^2)-normalised deviations, covariance, mean/std curves are proved equal to the equal-azimuth-weight estimators; cov diagonal = std^2; azimuth-order invariance; single azimuth = traditional statistics.",
+   note="Bounds: 1-2 (quick) / 1-3 (thorough) azimuths x 2-3 windows x 2-3 frequencies. Accepted windows are assumed to have a peak; floats as reals with concrete float constants read as the simple rationals they round; sqrt/exp/log uninterpreted (argument equality decided).",
+   tech="symbolic execution from an arbitrary valid state + z3 equality queries against the Cheng et al. weighted estimators", ref="2/C11"),
  "C08": dict(engine="SYMX", text="Bounded model checking of the real peak-picking code: every feasible path of HvsrCurve/HvsrTraditional/HvsrAzimuthal/HvsrDiffuseField peak search on symbolic curves, grids and ranges is enumerated by the solver and the property is discharged per path as an unsat query; holds for all real-valued curves within the size bounds, not beyond.",
    note="Bounds: 4-5 (quick) / 4-7 (thorough) points per curve, <=2/3 curves, <=2 azimuths, <=2 range updates. scipy.signal.find_peaks replaced by a transcription of _local_maxima_1d validated against scipy on path witnesses; real arithmetic; find_peaks_kwargs beyond none outside the claim.",
    tech="symbolic execution of the real source + z3 (LRA) per-path unsat queries; witnesses replayed", ref="2/C08"),
